@@ -38,6 +38,7 @@ for name in sorted(os.listdir(SEEDED)):
         print(name, "DETECTED" if entry["detected"] else "MISSED", {p: c["exit"] for p, c in entry["checks"].items()}, flush=True)
     finally:
         subprocess.run(["git", "-C", REPO, "checkout", "--", "."])
+        subprocess.run(["git", "-C", REPO, "clean", "-fdq", "-e", "target"])   # files a patch created
 json.dump(res, open(os.path.join(SEEDED, "MATRIX.json"), "w"), indent=1)
 det = sum(1 for v in res.values() if v.get("detected"))
 print("detected %d / %d" % (det, len(res)))
